@@ -9,8 +9,8 @@
    theorem that does not mention the difference holds for both ([fx] universally quantified).
    Real time enters only as the Timeout event.  What a frame does (Notify i or Skip) is
    Model/PingFrame.v; its agreement with the RFC reading is in the frame theorems below. *)
-From PV Require Import Base.Prelude Model.Ping Model.PingTrace.
-From PV Require Import Proofs.Ping Proofs.PingIff Proofs.PingMore.
+From PV Require Import Base.Prelude Model.Ping Model.PingTrace Model.PingFrame Model.PingScript Model.PingKnown.
+From PV Require Import Spec.PingRFC Proofs.Ping Proofs.PingIff Proofs.PingMore Proofs.PingFrame.
 Open Scope N_scope.
 
 (* ---------------------------------------------------------------------------------------- *)
@@ -48,6 +48,68 @@ Theorem C19_young_if_few_calls : forall fx n tr,
   count_begins tr < 65536 -> always fx young (init n) tr.
 Proof. exact few_begins_young. Qed.
 Print Assumptions C19_young_if_few_calls.
+
+(* ---------------------------------------------------------------------------------------- *)
+(* Frames.  [parse_notify f] (Model/PingFrame.v) is what Session.Parse does with the frame f as
+   far as the waiter table is concerned: Ok (Some i) = echoNotify(i) is called, Ok None = it is
+   not.  [rfc_reply_id f] (Spec/PingRFC.v) is the RFC reading: f is an echo reply carrying
+   identifier i.  They agree on every frame of at most 65535 bytes outside three recorded defect
+   classes (each refuted by a witness that is replayed on the real code by harness variants
+   hdr4/hdr6, fam4/fam6, tl4; keys echo_reply_bad_ip_header, echo_reply_wrong_icmp_family,
+   echo_reply_beyond_ip4_totallen in known_findings.txt). *)
+Theorem C19_frame_agree_partial : forall f, bytes_ok f -> N.of_nat (List.length f) <= 65535 ->
+  known_C19_frame f = false -> parse_notify f = Ok (rfc_reply_id f).
+Proof. exact frame_agree. Qed.
+Print Assumptions C19_frame_agree_partial.
+
+Theorem C19_frame_agree_refuted_iphdr :
+  bytes_okb w_iphdr = true /\ known_C19_iphdr w_iphdr = true /\
+  parse_notify w_iphdr = Ok (Some 7) /\ rfc_reply_id w_iphdr = None.
+Proof. exact frame_agree_refuted_iphdr. Qed.
+Print Assumptions C19_frame_agree_refuted_iphdr.
+
+Theorem C19_frame_agree_refuted_family :
+  bytes_okb w_family = true /\ known_C19_iphdr w_family = false /\ known_C19_family w_family = true /\
+  parse_notify w_family = Ok (Some 7) /\ rfc_reply_id w_family = None.
+Proof. exact frame_agree_refuted_family. Qed.
+Print Assumptions C19_frame_agree_refuted_family.
+
+Theorem C19_frame_agree_refuted_totallen :
+  bytes_okb w_totallen = true /\ known_C19_iphdr w_totallen = false /\ known_C19_family w_totallen = false /\
+  known_C19_totallen w_totallen = true /\
+  parse_notify w_totallen = Ok (Some 7) /\ rfc_reply_id w_totallen = None.
+Proof. exact frame_agree_refuted_totallen. Qed.
+Print Assumptions C19_frame_agree_refuted_totallen.
+
+(* Echo requests never reach echoNotify. *)
+Theorem C19_request_silent_partial : forall f j, bytes_ok f -> N.of_nat (List.length f) <= 65535 ->
+  known_C19_frame f = false -> rfc_request_id f = Some j -> parse_notify f = Ok None.
+Proof. exact frame_request_silent. Qed.
+Print Assumptions C19_request_silent_partial.
+
+Example C19_frame_nonvacuous :
+  bytes_okb w_reply6 = true /\ known_C19_frame w_reply6 = false /\ parse_notify w_reply6 = Ok (Some 7) /\
+  bytes_okb w_request4 = true /\ known_C19_frame w_request4 = false /\ rfc_request_id w_request4 = Some 7 /\
+  parse_notify w_request4 = Ok None.
+Proof. exact frame_agree_nonvacuous. Qed.
+Print Assumptions C19_frame_nonvacuous.
+
+(* C19_foreign.  A call in whose window every event is either a parsed frame that is NOT an echo
+   reply for the call's own identifier (reply with another id, echo request, malformed or
+   non-ICMP frame; outside the recorded classes), or no notification at all (timers, Begin/End of
+   other calls), returns ErrTimeout. *)
+Theorem C19_foreign_partial : forall fx n pre p mid post s,
+  n < 65536 ->
+  run fx (init n) (pre ++ Begin p true :: mid ++ End p :: post) = Ok s ->
+  always fx young (init n) (pre ++ Begin p true :: mid ++ End p :: post) ->
+  ~ In (End p) mid ->
+  (forall e, In e mid ->
+     (exists f, e = frame_event f /\ bytes_ok f /\ N.of_nat (List.length f) <= 65535 /\
+                known_C19_frame f = false /\ rfc_reply_id f <> id_of s p)
+     \/ (forall j, e <> Notify j)) ->
+  result_of s p = Some RTimeout.
+Proof. exact ping_foreign. Qed.
+Print Assumptions C19_foreign_partial.
 
 (* ---------------------------------------------------------------------------------------- *)
 (* C19_distinct.  Identifiers are next0 + (number of earlier Begin events) mod 2^16; the table is
